@@ -468,6 +468,74 @@ fn linearity_case<T: Sc>(rng: &mut Rng, case: u64, out: &mut CaseOut) {
 
 /// KF-1 witnesses: fixed graded matrices (independent of VERIF_SEED) on which the dependency's
 /// SVD is inaccurate; replayed on every run and reported as KNOWN-FINDING while they still fail.
+/// exactly tied singular values: orthogonal basis functions of equal norm (scaled unit vectors,
+/// Hadamard sign patterns, box-car indicators with equal counts), possibly in two groups of different norm
+fn tied_case<T: Sc>(rng: &mut Rng, case: u64, out: &mut CaseOut) {
+    let stream = "tied-singular-values";
+    let kind = rng.below(3);
+    let (n, m, base): (usize, usize, Mat) = match kind {
+        0 => {
+            let m = rng.int(2, 6);
+            let n = m + rng.int(0, 4);
+            let rows = rng.perm(n);
+            let s1 = crate::sc::rt::<T>(rng.logrange(0.1, 10.0));
+            let s2 = if rng.chance(0.5) { s1 } else { crate::sc::rt::<T>(s1 * rng.range(1.5, 4.0)) };
+            let split = rng.int(1, m);
+            (n, m, Mat::from_fn(n, m, |i, j| if i == rows[j] { if j < split { s1 } else { s2 } } else { 0.0 }))
+        }
+        1 => {
+            // Sylvester-Hadamard patterns: entry (i, j) = (-1)^popcount(i & (j+1))
+            let n = *rng.pick(&[4usize, 8, 16]);
+            let m = rng.int(2, (n - 1).min(6));
+            let s = crate::sc::rt::<T>(rng.logrange(0.1, 10.0));
+            let cols = rng.perm(n - 1);
+            (n, m, Mat::from_fn(n, m, |i, j| if (i & (cols[j] + 1)).count_ones() % 2 == 0 { s } else { -s }))
+        }
+        _ => {
+            let m = rng.int(2, 5);
+            let per = rng.int(1, 4);
+            let n = m * per + rng.int(0, 2);
+            (n, m, Mat::from_fn(n, m, |i, j| if i / per == j { 1.0 } else { 0.0 }))
+        }
+    };
+    let s = *rng.pick(&[1usize, 1, 2, 3]);
+    let y = Mat::from_fn(n, s, |_, _| rng.normal() * 3.0);
+    // weights that keep the ties: none, one constant, or one constant with random signs
+    let w = match rng.below(3) {
+        0 => None,
+        1 => Some(vec![crate::sc::rt::<T>(rng.logrange(0.2, 5.0)); n]),
+        _ => {
+            let c = crate::sc::rt::<T>(rng.logrange(0.2, 5.0));
+            Some((0..n).map(|_| c * rng.sign()).collect())
+        }
+    };
+    let spec = ProblemSpec { model: ModelKind::Table { n, m, p: 1, base, slope: vec![Mat::zeros(n, m)] }, alpha0: vec![rng.normal()], y, w, eps: None, mrhs: s > 1 || rng.chance(0.3), par: rng.chance(0.3) };
+    let Ok(mut prob) = build_problem::<T>(&spec, &SpyCtl::new()) else {
+        violation(out, stream, case, "valid problem rejected by the builder", spec.to_json());
+        return;
+    };
+    out.seen("tied_patterns", ["scaled unit vectors", "Hadamard sign patterns", "box-car indicators"][kind]);
+    for step in 0..2 {
+        let alpha: Vec<f64> = prob.params().iter().map(|v| v.w()).collect();
+        match prob.coeffs() {
+            Some(c) => {
+                let before = out.violations.len();
+                check_state::<T>(out, stream, case, &spec, &widen(&prob.weighted_data()), &alpha, &widen(&c), T::EPS, if step == 0 { "tied singular values, after build" } else { "tied singular values, after set_params" });
+                if out.violations.len() > before {
+                    return;
+                }
+            }
+            None => {
+                out.evals += 1;
+                violation(out, stream, case, "finite basis matrix with tied singular values but no coefficients", spec.to_json());
+                return;
+            }
+        }
+        prob.set_params(&DVector::from_vec(vec![T::of(rng.normal())]));
+    }
+    out.nontrivial.push(spec.hash());
+}
+
 fn kf1_witness_case(_rng: &mut Rng, case: u64, out: &mut CaseOut) {
     let stream = "kf1-witnesses";
     let mut rng = Rng::new(0xC01_0000 + case);
@@ -486,7 +554,7 @@ fn kf1_witness_case(_rng: &mut Rng, case: u64, out: &mut CaseOut) {
 
 pub fn run(ctx: &Ctx) {
     ctx.run_cases("kf1-witnesses", 6, 30.0, kf1_witness_case);
-    ctx.rule("states: zoo models Z1-Z4 (builder-made and hand-written) x data with 1..7 columns of different magnitude x six weight classes x f32/f64 x sequential/parallel, checked after build and after each of 1..5 parameter updates with alpha drawn 0.4x..2.5x around the generating values; fit-trajectories: every state the optimizer visited (ProblemSpy); designed-rank: singular values fixed by construction >=16x or <=1/16 of default/user/negative thresholds; threshold-boundary: one-column model with singular value exactly at / one ulp above the threshold; duplicate-columns; linearity: columns [y1,y2,a*y1+b*y2]. A case is non-trivial when the residual exceeds 1e-3 of the weighted data and (weights are non-constant or S>1), or is a designed rank/boundary case; distinct = distinct (problem, alpha) hashes");
+    ctx.rule("[tied-singular-values: orthogonal basis functions of equal norm - scaled unit vectors in one or two groups, Hadamard sign patterns, box-car indicators with equal counts - with no, constant or sign-flipped constant weights, so that singular values of W·Phi tie exactly] states: zoo models Z1-Z4 (builder-made and hand-written) x data with 1..7 columns of different magnitude x six weight classes x f32/f64 x sequential/parallel, checked after build and after each of 1..5 parameter updates with alpha drawn 0.4x..2.5x around the generating values; fit-trajectories: every state the optimizer visited (ProblemSpy); designed-rank: singular values fixed by construction >=16x or <=1/16 of default/user/negative thresholds; threshold-boundary: one-column model with singular value exactly at / one ulp above the threshold; duplicate-columns; linearity: columns [y1,y2,a*y1+b*y2]. A case is non-trivial when the residual exceeds 1e-3 of the weighted data and (weights are non-constant or S>1), or is a designed rank/boundary case; distinct = distinct (problem, alpha) hashes");
     ctx.assume("oracle: own Householder QR / one-sided Jacobi SVD in f64; Phi from the zoo's closed formulas evaluated in the scalar type under test");
     ctx.assume("strict-certificate failures are attributed to KF-1 only when the dependency's measured SVD reconstruction error explains them (DESIGN 3.4)");
     let t = ctx.tier;
@@ -497,4 +565,5 @@ pub fn run(ctx: &Ctx) {
     ctx.run_cases("threshold-boundary", t.pick(1000, 40000), b, |r, c, o| if c % 2 == 0 { boundary_case::<f32>(r, c, o) } else { boundary_case::<f64>(r, c, o) });
     ctx.run_cases("duplicate-columns", t.pick(1000, 40000), b, |r, c, o| if c % 3 == 0 { duplicate_case::<f32>(r, c, o) } else { duplicate_case::<f64>(r, c, o) });
     ctx.run_cases("linearity", t.pick(3000, 120000), b, |r, c, o| if c % 3 == 0 { linearity_case::<f32>(r, c, o) } else { linearity_case::<f64>(r, c, o) });
+    ctx.run_cases("tied-singular-values", t.pick(3000, 120000), b, |r, c, o| if c % 3 == 0 { tied_case::<f32>(r, c, o) } else { tied_case::<f64>(r, c, o) });
 }
